@@ -9,4 +9,5 @@ CONSTANTS
   Rich = FALSE
 INVARIANT DesignFaithful
 INVARIANT DeviationsExplain
+INVARIANT Emit
 CHECK_DEADLOCK FALSE
